@@ -1014,11 +1014,13 @@ class TOTP:
         """
         digits = self_or_cls.digits
         if isinstance(token, int):
+            if token < 0:
+                raise MalformedTokenError("Token must not be negative")
             token = "%0*d" % (digits, token)
         else:
             token = to_unicode(token, param="token")
             token = _clean_re.sub("", token)
-            if not token.isdigit():
+            if not (token.isascii() and token.isdigit()):
                 raise MalformedTokenError("Token must contain only the digits 0-9")
         if len(token) != digits:
             raise MalformedTokenError("Token must have exactly %d digits" % digits)
